@@ -290,7 +290,7 @@ func mnScenario(r *sim.Run, prop string) {
 	// register a client and wait until the pipeline (incl. the 750 ms liveness probe) is through with it
 	register := func(c *stClient) {
 		w.register(c.regMessage(nil))
-		time.Sleep(2 * time.Second)
+		time.Sleep(10 * time.Second) // generous: the oracle must not depend on how long a probe takes
 		w.settle()
 	}
 	newClient := func(covertHost string) *stClient {
